@@ -5,7 +5,9 @@ from . import checks, core
 
 
 def all_checks():
+    from . import hchecks
     d = dict(checks.CHECKS)
+    d.update(hchecks.HCHECKS)
     return d
 
 
@@ -21,5 +23,6 @@ def replay(prop, path):
     re-validates it."""
     payload = json.load(open(path))
     out = checks.Outcome(prop, "quick", 0)
-    checks.run_batch(out, "replay", payload["dict"], [payload["history"]], spec=payload.get("spec", "Trace_File"), nshards=1)
+    checks.run_batch(out, "replay", payload["dict"], [payload["history"]], spec=payload.get("spec", "Trace_File"), nshards=1,
+                     driver=payload.get("driver", "drive"))
     return checks.finish(out, "model_checking", "replay of one recorded history", checks.FILE_ASSUME)
